@@ -5,6 +5,7 @@ import (
 
 	"github.com/ExocoreNetwork/exocore/x/oracle/keeper/common"
 	"github.com/ExocoreNetwork/exocore/x/oracle/types"
+	sdk "github.com/cosmos/cosmos-sdk/types"
 )
 
 type filter struct {
@@ -88,7 +89,13 @@ func (f *filter) addPSource(pSources []*types.PriceSource, validator string) (li
 
 // filtrate checks data from MsgCreatePrice, and will drop the conflict or duplicate data, it will then fill data into calculator(for deterministic source data to get to consensus) and aggregator (for both deterministic and non0-deterministic source data run 2-layers aggregation to get the final price)
 func (f *filter) filtrate(price *types.MsgCreatePrice) (list4Calculator []*types.PriceSource, list4Aggregator []*types.PriceSource) {
+	// identify the validator by its canonical consensus address (as the power lookup does), not by
+	// the spelling of the creator string: bech32 also accepts an all-upper-case spelling, under which
+	// the same validator would otherwise be filtered - and its power counted - a second time.
 	validator := price.Creator
+	if accAddress, err := sdk.AccAddressFromBech32(price.Creator); err == nil {
+		validator = sdk.ConsAddress(accAddress).String()
+	}
 	nonces := f.validatorNonce[validator]
 	if nonces == nil {
 		nonces = f.newVNSet()
